@@ -254,7 +254,7 @@ def make_tester(t, o, use_schema):
 
 def tstate_of(ft):
     return {"octr": ft._order_id, "ectr": ft._exec_id, "reg": list(ft.registered_orders.keys()),
-            "oids": dict(ft._order_ids)}
+            "oids": dict(getattr(ft, "_order_ids", {}))}
 
 
 def impl_fab(case):
@@ -941,6 +941,23 @@ def run_orderid_witness():
     return m1[37], m2[37]
 
 
+def run_orderid_witness2():
+    """the same order before and after its ClOrdID changed (new_req), nothing processed in between"""
+    from asyncfix import FIXTester
+    from asyncfix.protocol.common import FExecType as X, FOrdSide, FOrdStatus as St
+    from asyncfix.protocol.order_single import FIXNewOrderSingle
+
+    o = FIXNewOrderSingle("c1", "T", FOrdSide.BUY, 100.0, 10.0)
+    ft = FIXTester()
+    ft.order_register_single(o)
+    m1 = ft.fix_exec_report_msg(o, o.clord_id, X.PENDING_NEW, St.PENDING_NEW)
+    with patched_time():
+        o.new_req()
+    ft.order_register_single(o)
+    m2 = ft.fix_exec_report_msg(o, o.clord_id, X.NEW, St.NEW, cum_qty=0.0, leaves_qty=10.0)
+    return m1[37], m2[37]
+
+
 def oracle(ctx, disagreements, broken):
     from . import c20_wire as W
 
@@ -952,6 +969,11 @@ def oracle(ctx, disagreements, broken):
         failures.append({"signature": "C20-orderid-unstable",
                          "what": f"two reports fabricated before the first is processed carry OrderID {a} and {b}",
                          "input": WITNESS_ORDERID, "observed": [a, b]})
+    a, b = run_orderid_witness2()
+    if a != b:
+        failures.append({"signature": "C20-orderid-unstable",
+                         "what": f"reports for one order before and after new_req() carry OrderID {a} and {b}",
+                         "input": {"kind": "orderid-witness2"}, "observed": [a, b]})
     oracle_fab(ctx, [WITNESS_FOREIGN], failures, stats)
     # disagreeing inputs first
     first = [d["input"] for d in disagreements if isinstance(d.get("input"), dict) and d["input"].get("kind") == "fab"]
@@ -1024,6 +1046,10 @@ def replay(ctx, rp):
         oracle_fab(ctx, [inp], fails, stats)
     elif kind == "orderid-witness":
         a, b = run_orderid_witness()
+        print("replay: OrderIDs", a, b)
+        return a != b
+    elif kind == "orderid-witness2":
+        a, b = run_orderid_witness2()
         print("replay: OrderIDs", a, b)
         return a != b
     elif kind == "cxlrej":
